@@ -15,7 +15,8 @@
 (***************************************************************************)
 EXTENDS CsvCodec
 
-CONSTANTS PAlphabet, PMaxLen, InPolicies, OutPolicies, OutDlm, WithHeader
+CONSTANTS PAlphabet, PMaxLen, InPolicies, OutPolicies, OutDlm, WithHeader,
+          PQueries     \* subset of {1, 2}; query 2 needs a first field in every record (not so under the whitespace policy: a blank line has no field)
 
 VARIABLES itext, ipol, opol, qk, ppc
 pvars == <<itext, ipol, opol, qk, ppc>>
@@ -25,12 +26,12 @@ PGrow == /\ ppc = "grow" /\ Len(itext) < PMaxLen
          /\ \E c \in PAlphabet : itext' = Append(itext, c)
          /\ UNCHANGED <<ipol, opol, qk, ppc>> /\ UNCHANGED wvars
 PChoose == /\ ppc = "grow"
-           /\ \E pi \in InPolicies, po \in OutPolicies, k \in 1..2 : ipol' = pi /\ opol' = po /\ qk' = k
+           /\ \E pi \in InPolicies, po \in OutPolicies, k \in PQueries : ipol' = pi /\ opol' = po /\ qk' = k
            /\ ppc' = "done"
            /\ UNCHANGED itext /\ UNCHANGED wvars
 PNext == PGrow \/ PChoose
 
-InDlm == <<DlmA>>
+InDlm == IF ipol = "monocolumn" THEN <<>> ELSE <<DlmA>>
 ODlm  == <<OutDlm>>
 Rd    == RefRead(itext, InDlm, ipol, 0, "utf-8")
 \* with a header the first record is the header line: it is not data (NR starts after it) and is written first, as it is for select *,
@@ -59,7 +60,7 @@ PDone == ppc = "done"
 ReReadable == (PDone /\ ~Rd.err /\ HdrErr = 0 /\ Representable(OutT, ODlm, opol)) =>
               LET back == ReadBack(Wr.text, ODlm, opol) IN back.recs = Expected(OutT, opol) /\ ~back.err /\ back.firstdef = 0
 
-PCase == [text |-> itext, ipol |-> ipol, opol |-> opol, qk |-> qk, header |-> WithHeader,
+PCase == [text |-> itext, indlm |-> InDlm, ipol |-> ipol, opol |-> opol, qk |-> qk, header |-> WithHeader,
           \* records are processed as they are read: a width mismatch in an earlier record is met before a malformed later line
           rderr |-> (Rd.err /\ HdrErr = 0), errnr |-> Rd.errnr, errnl |-> Rd.errnl, hdrerr |-> HdrErr,
           out |-> IF Rd.err \/ HdrErr # 0 THEN <<>> ELSE Wr.text,
